@@ -50,7 +50,7 @@ class Facts:
         return out
 
     def children(self, fid):
-        return [f for f in self.fns.values() if f.get("parent") == fid]
+        return [f for f in self.fns.values() if f.get("parent") == fid or fid in f.get("also_in", ())]
 
     def body_of(self, fid):
         """for an `async fn f` return its coroutine body `f::{closure#0}`; otherwise f itself"""
@@ -74,26 +74,49 @@ def load(repo=None):
         # functions that did not exist on the tree the rules were confirmed on are analysed in place at their call sites
         kp = os.path.join(os.path.dirname(os.path.dirname(os.path.abspath(__file__))), "known_fns.txt")
         F.new_helpers = {"new": [], "inlined": [], "kept": []}
-        F.raw_fns = dict(F.fns)
+        F.raw_fns = F.fns
         if os.path.exists(kp) and not os.environ.get("GPA_NO_INLINE_NEW"):
             with open(kp) as f:
                 known = {l.strip() for l in f if l.strip()}
             from . import inline
+            comb = []
+            cp = os.path.join(os.path.dirname(kp), "known_closures.txt")
+            if os.path.exists(cp):
+                rec = {}
+                with open(cp) as f:
+                    for l in f:
+                        if "\t" in l:
+                            k, v = l.rstrip("\n").rsplit("\t", 1)
+                            rec[k] = int(v)
+                # 1. in functions whose family of closures changed, Option/Result combinators are written out as matches
+                comb = inline.desugar_changed_functions(F, rec, set(build.CRATES))
+            F.raw_fns = dict(F.fns)
+            # 2. new helpers are analysed in place
             F.new_helpers = inline.inline_new_helpers(F, known, set(build.CRATES))
+            F.new_helpers["combinators"] = comb
         _cache[fdir] = F
     return _cache[fdir]
 
 
-def raw_view(F):
-    """the fact base without the in-place analysis of new helpers: for rule modules that recognise helpers by their own contracts
-    (body readers with loops, `&mut Request` helpers) and would lose them if the helper dissolved into its caller"""
+def raw_view(F, keep_loops=True):
+    """the fact base for rule modules that recognise some helpers by a contract of their own (body readers: helpers with a loop):
+    new helpers WITH a source loop stay functions, straight-line new helpers are still analysed in place"""
     if not getattr(F, "new_helpers", None) or not F.new_helpers.get("inlined"):
         return F
+    cached = F.__dict__.get("_raw_view")
+    if cached is not None:
+        return cached
     import copy
+    from . import inline
     G = copy.copy(F)
     G.fns = dict(F.raw_fns)
     G.__dict__.pop("_body_cache", None)
-    G.__dict__.pop("_cg", None)
+    kp = os.path.join(os.path.dirname(os.path.dirname(os.path.abspath(__file__))), "known_fns.txt")
+    with open(kp) as f:
+        known = {l.strip() for l in f if l.strip()}
+    G.new_helpers = inline.inline_new_helpers(G, known, set(build.CRATES), keep=inline.has_source_loop)
+    G.new_helpers["combinators"] = F.new_helpers.get("combinators", [])
+    F.__dict__["_raw_view"] = G
     return G
 
 
